@@ -29,6 +29,7 @@ type genCfg struct {
 	IllTyped   bool    // assignments over every (current type, assigned type, operator)
 	VisitLine  bool    // node bodies start with a line rendering visited()/visited_count()
 	RichExpr   bool    // deeper expression trees with probes
+	IntroNode  bool    // sometimes an extra first node that touches no variable and jumps to the real start
 	MathHeavy  bool    // most number expressions go through the numeric built-ins
 	Reloop     bool    // the start node ends by jumping to itself twice, with the variables changed
 	OptConds   bool    // most options carry a condition, many of them reading no variable (visit functions, host functions)
@@ -53,7 +54,7 @@ var families = map[string]genCfg{
 	"expr": {Family: "expr", MaxNodes: 2, MaxDepth: 1, MaxStmts: 6, Sets: 2.5, Lines: 4, Ifs: 1, Calls: 1, Jumps: 0.3, RichExpr: true, Faults: 0.12,
 		Reloop: true, Storer: "recording"},
 	"faults": {Family: "faults", MaxNodes: 3, MaxDepth: 3, MaxStmts: 4, Opts: 2, Ifs: 2, Sets: 2, Jumps: 1, Stops: 0.3, Lines: 3,
-		Cmds: 1.5, Calls: 1, Faults: 0.2, FailCmds: true, Storer: "recording"},
+		Cmds: 1.5, Calls: 1, Faults: 0.2, FailCmds: true, PendCmds: true, Storer: "recording"},
 	"visits": {Family: "visits", MaxNodes: 3, MaxDepth: 2, MaxStmts: 3, Opts: 2, Ifs: 1.5, Sets: 0.5, Jumps: 4, Stops: 0.3, Lines: 1.5,
 		VisitLine: true, JumpFaults: 0.12, CountJumps: true, Storer: "recording"},
 	// hub nodes presented again and again: the same option group's conditions must be evaluated at every presentation
@@ -63,7 +64,7 @@ var families = map[string]genCfg{
 	"mathy": {Family: "mathy", MaxNodes: 2, MaxDepth: 1, MaxStmts: 6, Sets: 2, Lines: 6, Ifs: 1, Jumps: 0.5, RichExpr: true, MathHeavy: true,
 		Reloop: true, Storer: "recording"},
 	"snap": {Family: "snap", MaxNodes: 3, MaxDepth: 2, MaxStmts: 4, Opts: 2, Ifs: 1, Sets: 3, Jumps: 2.5, Stops: 0.3, Lines: 2,
-		Cmds: 1.5, PendCmds: true, VisitLine: true, Storer: "recording"},
+		Cmds: 1.5, PendCmds: true, VisitLine: true, IntroNode: true, Storer: "recording"},
 }
 
 // domainCalls enumerates calls of the random built-ins over argument classes (property C06:
@@ -87,16 +88,33 @@ func domainCalls() []*Expr {
 		}
 	}
 	out = append(out, eCall("random_range", eNum(1, 1)), eCall("random_range", eNum(5, 1), eNum(1, 1)))
+	// every class of faulty expression, on its own (the statement kinds below place it in a line, an
+	// assignment, conditions of if / options, option text, a command argument, a call statement)
+	out = append(out,
+		eNull(), eNeg(eNull()), eBin("add", eNull(), eNum(1, 1)), eBin("eq", eStr("a"), eNull()),
+		eCall("noret"), eCall("p1", eCall("noret")), eBin("add", eCall("noret"), eNum(1, 1)), eNot(eCall("noret")),
+		eVar("nosuchvar"), eCall("nosuchfunc", eNum(1, 1)), eCall("boom"),
+		eBin("add", eNum(1, 1), eStr("a")), eBin("and", eBool(true), eNum(1, 1)), eBin("lt", eStr("a"), eStr("b")),
+		eNeg(eBool(true)), eNot(eNum(1, 1)), eCall("visited", eNum(1, 1)), eCall("visited_count"),
+		eCall("cstr", eNum(1, 1)), eCall("cbool", eStr("x"), eBool(true)), eCall("floor", eStr("x")), eCall("round"),
+		// results outside the finite numbers (no verdict on the value; nothing may panic)
+		eBin("div", eNum(0, 1), eNum(0, 1)), eBin("div", eNum(1, 1), eNum(0, 1)), eBin("mod", eNum(5, 1), eNum(0, 1)),
+		eCall("string", eBin("div", eNum(0, 1), eNum(0, 1))), eCall("floor", eBin("div", eNum(1, 1), eNum(0, 1))),
+		eBin("sub", eBin("div", eNum(1, 1), eNum(0, 1)), eBin("div", eNum(1, 1), eNum(0, 1))),
+		eCall("number", eStr("NaN")), eCall("number", eStr("abc")), eCall("bool", eStr("maybe")),
+	)
 	return out
 }
+
+const domainKinds = 8
 
 // genDomainCase places ONE built-in call in one statement kind at one nesting position.
 func genDomainCase(id int) *Case {
 	calls := domainCalls()
 	k := id - 1
 	call := calls[k%len(calls)]
-	kind := (k / len(calls)) % 7
-	pos := (k / (len(calls) * 7)) % 3
+	kind := (k / len(calls)) % domainKinds
+	pos := (k / (len(calls) * domainKinds)) % 3
 	c := &Case{ID: id, Family: "domain", Funcs: defaultFuncs(), Cmds: defaultCmds(), Storer: "recording", Vars: []string{"n"}}
 	c.Nodes = []Node{{Title: "Start"}}
 	var st Stmt
@@ -113,8 +131,14 @@ func genDomainCase(id int) *Case {
 		st = Stmt{K: "opts", Opts: []Option{{Text: []Part{{Lit: "Pick "}, {E: call}}}}}
 	case 5:
 		st = Stmt{K: "cmd", Elems: []*Expr{eStr("cdone"), call}}
+	case 6:
+		st = Stmt{K: "opts", Opts: []Option{{Text: []Part{{Lit: "Pick"}}, Cond: call}, {Text: []Part{{Lit: "Other"}}}}} // the condition itself
 	default:
-		st = Stmt{K: "call", E: call}
+		if call.K == "call" {
+			st = Stmt{K: "call", E: call}
+		} else {
+			st = Stmt{K: "jump", E: call}
+		}
 	}
 	after := Stmt{K: "line", Text: []Part{{Lit: "after"}}}
 	var body []Stmt
@@ -134,7 +158,7 @@ func genDomainCase(id int) *Case {
 	return c
 }
 
-func domainCaseCount() int { return len(domainCalls()) * 7 * 3 }
+func domainCaseCount() int { return len(domainCalls()) * domainKinds * 3 }
 
 type gen struct {
 	rnd    *rand.Rand
@@ -204,6 +228,17 @@ func genCase(rnd *rand.Rand, cfg genCfg, id int) *Case {
 		}
 		stmts = append(stmts, g.stmts(1, i)...)
 		c.Nodes[i].Body = c.addBody(stmts)
+	}
+	if cfg.IntroNode && rnd.Intn(3) == 0 {
+		// a first node without any variable: a snapshot taken there holds no variables, and the
+		// dialogue leaves it through a jump without having assigned anything
+		intro := []Stmt{{K: "line", Text: []Part{{Lit: "Intro"}}}}
+		if rnd.Intn(2) == 0 {
+			intro = append(intro, Stmt{K: "opts", Opts: []Option{{Text: []Part{{Lit: "Begin"}}}, {Text: []Part{{Lit: "Begin anyway"}}}}})
+		}
+		intro = append(intro, Stmt{K: "jump", E: eStr(g.titles[0])})
+		c.Nodes = append([]Node{{Title: "Intro", Tracking: []string{"", "never"}[rnd.Intn(2)], Body: c.addBody(intro)}}, c.Nodes...)
+		nn++
 	}
 	// reader split
 	if nn > 1 && rnd.Intn(2) == 0 {
